@@ -1,7 +1,10 @@
 (* Correspondence for C14.  A case carries the input AND what the implementation
    returned (canonicalised by harness/props/c14.py):
-   * Prog start ops impl : start value (str / FmtStr / something else), a chain of
-     formatting calls applied one after the other, the final outcome;
+   * Prog start ops impl obs : start value (str / FmtStr / something else; a FmtStr start may
+     have been derived through the API with its memoised str/len/s/width already
+     filled, the case carries its actual runs), a chain of formatting calls applied
+     one after the other, the final outcome, and (str(result), result.s) as the
+     implementation reports them;
    * Parse args kw impl  : parse_args called directly, the returned dict;
    * NewStr f s impl     : f.copy_with_new_str(s);
    * Shared f impl       : f.shared_atts.
@@ -19,7 +22,7 @@ Inductive op :=
 | ORemove (keys : list str).                            (* x.new_with_atts_removed( *keys) *)
 
 Inductive case :=
-| Prog (start : strarg) (ops : list op) (impl : option (res fmtstr))
+| Prog (start : strarg) (ops : list op) (impl : option (res fmtstr)) (obs : option (str * str))
 | Parse (args : list value) (kw : dict) (impl : option (res atts))
 | NewStr (f : fmtstr) (s : str) (impl : fmtstr)
 | Shared (f : fmtstr) (impl : res atts).
@@ -53,7 +56,12 @@ Definition opt_res_eqb {X} (eqb : X -> X -> bool) (a b : option (res X)) : bool 
 
 Definition model_ok (c : case) : bool :=
   match c with
-  | Prog start ops impl => opt_res_eqb same_cells (run_ops start ops) impl
+  | Prog start ops impl obs =>
+      opt_res_eqb same_cells (run_ops start ops) impl &&
+      match impl, obs with
+      | Some (Ok g), Some (sg, tg) => str_eqb (render g) sg && str_eqb (text g) tg
+      | _, _ => true
+      end
   | Parse args kw impl =>
       opt_res_eqb atts_eqb
         (match parse_args args kw with
@@ -106,7 +114,7 @@ Definition spec_prog (start : strarg) (ops : list op) : option (res (list cell))
 
 Definition spec_ok (c : case) : bool :=
   match c with
-  | Prog start ops impl =>
+  | Prog start ops impl obs =>
       match spec_prog start ops with
       | None => true
       | Some expected =>
@@ -114,6 +122,13 @@ Definition spec_ok (c : case) : bool :=
           | Some got => res_eqb cells_eqb expected
                           (match got with Ok f => Ok (cells f) | Raise e => Raise e end)
           | None => false
+          end &&
+          (* what the result reports about itself: it displays the expected cells, its text is theirs *)
+          match expected, obs with
+          | Ok cs, Some (sg, tg) =>
+              str_eqb tg (map fst cs) &&
+              (if forallb clean_char tg then displays_exactly sg cs else true)
+          | _, _ => true
           end
       end
   | Parse args kw impl =>
